@@ -80,6 +80,16 @@ func c12Scenarios(level int) []c12Scenario {
 	addrY := "$id: https://example.com/address-yaml\ntype: object\nproperties:\n  fromYAML: {type: integer}\n"
 	sc = append(sc, c12Scenario{"resolve-extension/competing", []genlab.File{{Path: "order.schema.json", Content: space.Text(ord)}, {Path: "address.json", Content: space.Text(addrJ)}, {Path: "address.yaml", Content: addrY}, {Path: "address.schema.json", Content: space.Text(addrJ)}},
 		[]string{"order.schema.json"}, genlab.Cfg{Package: "s", ResolveExt: []string{".json", ".schema.json", ".yaml", ".yml"}}})
+	// mapping flags whose ids are near-miss spellings of one schema id (trailing '#', trailing '/', other letter case): whichever of them
+	// select the schema, the selection must not depend on the order in which the flags' ids come out of a map
+	{
+		id := "https://example.com/schemas/person"
+		person := J{"$id": id, "type": "object", "properties": J{"name": str, "age": in}, "required": A{"name"}}
+		sc = append(sc, c12Scenario{"mapping-ids/near-miss-spellings", []genlab.File{{Path: "person.json", Content: space.Text(person)}}, []string{"person.json"},
+			genlab.Cfg{Package: "example.com/m/dflt", ResolveExt: []string{".json"}, Mappings: []genlab.Mapping{
+				{ID: id + "#", Package: "example.com/m/model", Root: "Human"}, {ID: id, Output: "out/person.go"}, {ID: id + "/", Root: "Slash", Output: "out/slash.go"},
+				{ID: "HTTPS://EXAMPLE.COM/schemas/person", Root: "Upper", Output: "out/upper.go"}}}})
+	}
 	// YAML input with many keys
 	yml := "$id: https://example.com/y\ntype: object\nproperties:\n  one: {type: string}\n  two: {type: integer}\n  three:\n    type: object\n    properties:\n      k1: {type: string}\n      k2: {type: boolean}\n      k3: {type: number}\nrequired: [one, two]\ndefinitions:\n  D1: {type: object, properties: {a: {type: string}}}\n  D2: {type: object, properties: {b: {type: string}}}\n"
 	sc = append(sc, c12Scenario{"yaml", []genlab.File{{Path: "s.yaml", Content: yml}}, []string{"s.yaml"}, genlab.Cfg{Package: "s", ResolveExt: []string{".yaml"}}})
@@ -525,7 +535,11 @@ func c12Locations(ctx *Ctx, sc c12Scenario, transitions, validated *int) {
 		{filepath.Join(root, "e"), false, func(dir, a string) string { return "updir/../" + a }},
 		{filepath.Join(root, "f"), true, func(dir, a string) string { return dir + "/./" + a }},
 		{filepath.Join(root, "g"), true, func(dir, a string) string { return dir + "//" + a }},
-		{filepath.Join(root, "h"), false, func(dir, a string) string { return "../h/" + a }}}
+		{filepath.Join(root, "h"), false, func(dir, a string) string { return "../h/" + a }},
+		// directory names with characters that mean something in a URL, the schema files reached by relative arguments
+		{filepath.Join(root, "issue#42", "i"), false, plain}, {filepath.Join(root, "really?", "nested", "j"), false, plain}, {filepath.Join(root, "a&b=c", "k"), false, plain},
+		// ... and by absolute arguments
+		{filepath.Join(root, "issue#43", "l"), true, abs}, {filepath.Join(root, "really?", "m"), true, abs}}
 	var ref string
 	for i, l := range locs {
 		os.RemoveAll(l.dir)
